@@ -120,13 +120,24 @@ E2E_CANDS = {
 E2E_LINES = {
     "r/ab.py": ["import r.aab", "import r.test.t"],
     "r/c(1)/k.py": ["import r.ab", "import r.mytest"],
-    "r/test/t.py": ["import r.ab"],
+    "r/test/t.py": ["import r.ab", "import ext_lib.tool"],
     # 'from r import test' names the PACKAGE r.test (a directory): it stays a module when only the files below it are
     # excluded, and the import of it must stay as it is
     "r/mytest.py": ["import r.aab", "from r import test"],
 }
 P = "/symfs/"
+# pattern sets scanned with externals INCLUDED: a file exclusion pattern that matches no path but, read as text, the
+# dotted name of an imported external module (ext_lib.tool) - exclusions are about files and directories only
+INCLUDE_EXTERNALS = {("*ext_lib*",), ("*tool", "*/k2.py")}
+
+
+def ext_kw(patterns) -> dict:
+    return {"exclude_external_libraries": False} if tuple(patterns) in INCLUDE_EXTERNALS else {}
+
+
 PATTERN_SETS = [
+    ("*ext_lib*",),
+    ("*tool", "*/k2.py"),
     ("*a+b.py",),
     ("*/t.py",),
     ("*g\\h.py",),
@@ -274,7 +285,13 @@ def e2e_judge(model: FSModel, existing: set, patterns, base: str, plain, filtere
 
     gone = {dotted(p) for p in existing if (model.cands[p] == "dir" or p.endswith(".py")) and excluded(p)}
     _, n0, i0, h0 = plain
-    want_nodes = n0 - gone
+    internal_all = {dotted(p) for p in existing if model.cands[p] == "dir" or p.endswith(".py")}
+    want_nodes = (n0 & internal_all) - gone
+    # external modules (scans with externals included) stay exactly as far as a remaining module imports them
+    for u, v in i0:
+        if u in want_nodes and v not in internal_all:
+            parts = v.split(".")
+            want_nodes |= {".".join(parts[:i]) for i in range(1, len(parts) + 1)}
     if "r" in gone:
         want_nodes = set()
     want_imp = {(u, v) for u, v in i0 if u in want_nodes and v in want_nodes}
@@ -293,9 +310,10 @@ def e2e_judge(model: FSModel, existing: set, patterns, base: str, plain, filtere
 def e2e_outcome(patterns, model: FSModel):
     rx = tuple(equivalent_regex(p) for p in patterns)
     with symfs(model):
-        plain = e2e_scan("/symfs")
-        filtered = e2e_scan("/symfs", exclusions=tuple(patterns))
-        filtered_re = e2e_scan("/symfs", exclusions=(), regex_exclusions=rx)
+        kw = ext_kw(patterns)
+        plain = e2e_scan("/symfs", **kw)
+        filtered = e2e_scan("/symfs", exclusions=tuple(patterns), **kw)
+        filtered_re = e2e_scan("/symfs", exclusions=(), regex_exclusions=rx, **kw)
         existing = {p for p in sorted(model.cands, key=lambda q: q.count("/")) if model.exists(p)}
     return e2e_judge(model, existing, patterns, "/symfs/", plain, filtered, filtered_re)
 
@@ -507,7 +525,8 @@ def replay_detail(payload: dict):
             ok = o[0] == "OK"
             return ok, f"tree {sorted(ex)} with regex_exclusions {patterns}: " + ("as specified" if ok else f"expected {o[1]}, got {o[2]}"), {"outcome": [str(x)[:300] for x in o]}
         rx = tuple(equivalent_regex(p) for p in patterns)
-        o = e2e_judge(model, ex, patterns, d + "/", e2e_scan(d), e2e_scan(d, exclusions=patterns), e2e_scan(d, exclusions=(), regex_exclusions=rx))
+        kw = ext_kw(patterns)
+        o = e2e_judge(model, ex, patterns, d + "/", e2e_scan(d, **kw), e2e_scan(d, exclusions=patterns, **kw), e2e_scan(d, exclusions=(), regex_exclusions=rx, **kw))
         ok = o[0] == "OK"
         return ok, f"tree {sorted(ex)} with exclusions {patterns}: " + ("as specified" if ok else f"expected {o[1]}, got {o[2]}"), {"outcome": [str(x)[:300] for x in o]}
     finally:
